@@ -826,10 +826,65 @@ def single_return(fn: ast.AST) -> Optional[ast.expr]:
     return None
 
 
+def returned_expression(fn: ast.AST) -> Optional[ast.expr]:
+    """the expression a def returns when its body is one return statement, possibly after plain bindings of local names that are each
+    bound once (speaking intermediate names): the returned expression with these names replaced by what they are bound to"""
+    r = single_return(fn)
+    if r is not None:
+        return r
+    body = [s for s in getattr(fn, "body", []) if not (isinstance(s, ast.Expr) and isinstance(s.value, ast.Constant) and isinstance(s.value.value, str))]
+    if len(body) < 2 or not isinstance(body[-1], ast.Return) or body[-1].value is None:
+        return None
+    D = Defs(fn)
+    for st in body[:-1]:
+        if isinstance(st, ast.AnnAssign) and st.value is not None:
+            targets = [st.target]
+        elif isinstance(st, ast.Assign):
+            targets = list(st.targets)
+        else:
+            return None
+        for t in targets:
+            if not (isinstance(t, ast.Name) and t.id not in D.params and len(D.values(t.id)) == 1 and D.values(t.id)[0] is not None):
+                return None
+    try:
+        return ast.parse(D.expand(body[-1].value), mode="eval").body
+    except SyntaxError:
+        return None
+
+
+def resolve_property(repo: Repo, mod: Module, e: ast.AST, cls: Optional[str] = None, selfnames: tuple[str, ...] = ("self",)) -> Optional[Callee]:
+    """the property def that the attribute read `x.name` runs, when the name tells: a private name (`_x`, read only inside the class
+    hierarchy) that the caller's class or exactly one class of the package defines, as a property and nothing else.  x is bound to its
+    self parameter.  Public properties are not followed: they are the stable names of the fields."""
+    if not (isinstance(e, ast.Attribute) and isinstance(e.ctx, ast.Load)):
+        return None
+    name = e.attr
+    if not (name.startswith("_") and not (name.startswith("__") and name.endswith("__"))):
+        return None
+    owners = _method_owners(repo).get(name, [])
+    pick = None
+    if cls is not None and (mod.name, cls) in owners:
+        pick = (mod.name, cls)
+    elif len(owners) == 1:
+        pick = owners[0]
+    if pick is None:
+        return None
+    where = repo.modules[pick[0]]
+    defs_ = [st for st in where.cls(pick[1]).body if isinstance(st, (ast.FunctionDef, ast.AsyncFunctionDef)) and st.name == name]
+    if len(defs_) != 1 or not isinstance(defs_[0], ast.FunctionDef) or _decorators(defs_[0]) != {"property"}:
+        return None
+    fn = defs_[0]
+    a = fn.args
+    if len(a.posonlyargs + a.args) != 1 or a.vararg or a.kwarg or a.kwonlyargs:
+        return None
+    return Callee(where, fn, {(a.posonlyargs + a.args)[0].arg: e.value}, pick[1])
+
+
 def expand_calls(repo: Repo, mod: Module, e: ast.AST, cls: Optional[str] = None, depth: int = 0) -> ast.AST:
-    """a copy of e in which every call of a def of the package that is one return statement is replaced by the returned expression,
-    parameters replaced by the arguments (an expression-like helper is a name for an expression: `_fold(x)` for
-    `x.lower() if x else None`, `lit._is_number()` for `lit.datatype in NUMERIC and ...`)"""
+    """a copy of e in which every call of a def of the package that is one return statement (possibly after bindings of speaking local
+    names), and every read of a property of that kind, is replaced by the returned expression, parameters replaced by the arguments
+    (an expression-like helper is a name for an expression: `_fold(x)` for `x.lower() if x else None`, `lit._is_number()` for
+    `lit.datatype in NUMERIC and ...`, `lit._lang_key` for `lit._language.lower() if lit._language else None`)"""
     import copy
 
     if depth > 4:
@@ -841,9 +896,20 @@ def expand_calls(repo: Repo, mod: Module, e: ast.AST, cls: Optional[str] = None,
             cal = resolve_call(repo, mod, c, cls)
             if cal is None:
                 return c
-            r = single_return(cal.fn)
+            r = returned_expression(cal.fn)
             if r is None:
                 return c
+            inner = expand_calls(repo, cal.mod, r, cal.cls, depth + 1)
+            return subst_names(inner, cal.bound)
+
+        def visit_Attribute(self, a: ast.Attribute):  # noqa: N802
+            self.generic_visit(a)
+            cal = resolve_property(repo, mod, a, cls)
+            if cal is None:
+                return a
+            r = returned_expression(cal.fn)
+            if r is None:
+                return a
             inner = expand_calls(repo, cal.mod, r, cal.cls, depth + 1)
             return subst_names(inner, cal.bound)
 
@@ -975,3 +1041,154 @@ class Copies:
         if now is None:
             return False
         return any(t == root and src == name and when > now and not self.rebound(name, now, when) for when, t, src in self.copies)
+
+
+# --------------------------------------------------------------------------- delegation, decision paths, comparisons as callables
+
+
+def delegation(repo: Repo, mod: Module, fn: ast.FunctionDef, cls: Optional[str] = None, depth: int = 4) -> tuple[Module, ast.FunctionDef, dict[str, ast.AST], Optional[str]]:
+    """the def that decides what fn answers: fn itself, or - when fn does nothing but return the result of a call of a def of the
+    package (a method body moved into a module-level function, a shared body with the operator / a constant passed in) - that def,
+    followed as long as it goes on.  With it, for every parameter of the def, the expression over fn's own parameters it stands for."""
+    a = fn.args
+    bound: dict[str, ast.AST] = {x.arg: ast.Name(id=x.arg, ctx=ast.Load()) for x in a.posonlyargs + a.args + a.kwonlyargs}
+    seen = {id(fn)}
+    while depth > 0:
+        depth -= 1
+        r = single_return(fn)
+        cal = resolve_call(repo, mod, r, cls) if r is not None else None
+        if cal is None or id(cal.fn) in seen:
+            break
+        seen.add(id(cal.fn))
+        bound = {p: subst_names(x, bound) for p, x in cal.bound.items() if x is not None}
+        mod, fn, cls = cal.mod, cal.fn, cal.cls
+    return mod, fn, bound, cls
+
+
+class Unmodelled(Exception):
+    pass
+
+
+def decision_paths(fn: ast.AST) -> list[tuple[list[tuple[ast.expr, bool]], Optional[ast.AST]]]:
+    """the paths through a loop-free def: for each, the (test, polarity) pairs in the order they are decided and what the path ends in -
+    the returned expression, the `raise` statement, or None at the end of the body.  An if/elif chain, guard clauses and nested ifs
+    that decide the same cases in the same order give the same list.  Unmodelled for loops, try, with, match."""
+    out: list[tuple[list[tuple[ast.expr, bool]], Optional[ast.AST]]] = []
+
+    def walk(stmts: list[ast.stmt], conds: list[tuple[ast.expr, bool]]) -> None:
+        if len(out) > 512:
+            raise Unmodelled("too many paths")
+        for i, st in enumerate(stmts):
+            if isinstance(st, ast.Return):
+                out.append((conds, st.value if st.value is not None else ast.Constant(value=None)))
+                return
+            if isinstance(st, ast.Raise):
+                out.append((conds, st))
+                return
+            if isinstance(st, ast.If):
+                rest = stmts[i + 1:]
+                walk(list(st.body) + rest, conds + [(st.test, True)])
+                walk(list(st.orelse) + rest, conds + [(st.test, False)])
+                return
+            if isinstance(st, (ast.Assign, ast.AnnAssign, ast.AugAssign, ast.Expr, ast.Pass, ast.Assert, ast.Import, ast.ImportFrom)):
+                continue
+            raise Unmodelled(type(st).__name__)
+        out.append((conds, None))
+
+    walk(list(getattr(fn, "body", [])), [])
+    return out
+
+
+_OPERATOR_FUNCS = {"lt": ast.Lt, "gt": ast.Gt, "le": ast.LtE, "ge": ast.GtE, "eq": ast.Eq, "ne": ast.NotEq,
+                   "__lt__": ast.Lt, "__gt__": ast.Gt, "__le__": ast.LtE, "__ge__": ast.GtE, "__eq__": ast.Eq, "__ne__": ast.NotEq}
+
+
+def operator_function(mods: "Module | list[Module]", e: ast.AST) -> Optional[type]:
+    """the comparison operator that e, a reference to a function of the standard `operator` module (`operator.gt`, `op.gt` after
+    `import operator as op`, `gt` after `from operator import gt` in (one of) the module(s) the reference is written in), applies to
+    its two arguments"""
+    for mod in (mods if isinstance(mods, list) else [mods]):
+        for st in mod.tree.body:
+            if isinstance(e, ast.Attribute) and isinstance(e.value, ast.Name) and isinstance(st, ast.Import) \
+                    and any(al.name == "operator" and (al.asname or al.name) == e.value.id for al in st.names):
+                return _OPERATOR_FUNCS.get(e.attr)
+            if isinstance(e, ast.Name) and isinstance(st, ast.ImportFrom) and st.module == "operator" and st.level == 0:
+                for al in st.names:
+                    if (al.asname or al.name) == e.id:
+                        return _OPERATOR_FUNCS.get(al.name)
+    return None
+
+
+def in_terms_of(D: Defs, bound: Optional[dict[str, ast.AST]], e: ast.AST) -> ast.AST:
+    """e with the singly-bound locals of its def replaced by what they are bound to, and then the parameters of the def by the
+    expressions `bound` gives for them (see `delegation`)"""
+    x = ast.parse(D.expand(e), mode="eval").body  # type: ignore[arg-type]
+    return subst_names(x, dict(bound)) if bound else x
+
+
+def as_comparison(mod: "Module | list[Module]", e: ast.AST) -> Optional[tuple[list[type], ast.AST, ast.AST]]:
+    """(operators, left, right) when e is a two-operand comparison: `a < b`, or a call op(a, b) of what can only be functions of the
+    `operator` module (named in place or chosen by a conditional expression)"""
+    if isinstance(e, ast.Compare) and len(e.ops) == 1:
+        return [type(e.ops[0])], e.left, e.comparators[0]
+    if isinstance(e, ast.Call) and len(e.args) == 2 and not e.keywords and not any(isinstance(x, ast.Starred) for x in e.args):
+        ops = [operator_function(mod, v) for v, _ in split_conditional(e.func)]
+        if ops and all(o is not None for o in ops):
+            return ops, e.args[0], e.args[1]  # type: ignore[return-value]
+    return None
+
+
+def comparisons(mod: "Module | list[Module]", fn: ast.AST, bound: Optional[dict[str, ast.AST]] = None, D: Optional[Defs] = None) -> list[tuple[ast.AST, list[type], ast.AST, ast.AST]]:
+    """(node, operators, left, right) of every two-operand comparison fn makes, written as `a < b` or as a call op(a, b) of what can only be
+    functions of the `operator` module - named in place, held in a local, chosen by a conditional expression, or handed in as a parameter
+    that `bound` maps to one.  Operands are given in terms of `bound` (in_terms_of)."""
+    D = D or Defs(fn)
+    out: list[tuple[ast.AST, list[type], ast.AST, ast.AST]] = []
+    for c in own_nodes(fn):
+        if isinstance(c, (ast.Compare, ast.Call)):
+            got = as_comparison(mod, in_terms_of(D, bound, c))
+            if got is not None:
+                out.append((c, got[0], got[1], got[2]))
+    return out
+
+
+# --------------------------------------------------------------------------- tests on the first character(s) of a text
+
+
+def holds_for_prefix(e: ast.AST, subject: str, prefix: str) -> bool:
+    """the test e is true of every text (held by the name `subject`) that starts with `prefix`, as far as the syntax tells:
+    subject.startswith(p) for a constant p that `prefix` starts with - or a tuple with such a p -, subject[0] / subject[:n] compared
+    (==, in) with such constants, an `or` with one such alternative, an `and` of such tests"""
+    def is_subject(x: ast.AST) -> bool:
+        return isinstance(x, ast.Name) and x.id == subject
+
+    def consts(x: ast.AST) -> Optional[list[str]]:
+        if isinstance(x, ast.Constant) and isinstance(x.value, str):
+            return [x.value]
+        if isinstance(x, (ast.Tuple, ast.List, ast.Set)) and all(isinstance(y, ast.Constant) and isinstance(y.value, str) for y in x.elts):
+            return [y.value for y in x.elts]  # type: ignore[attr-defined]
+        return None
+
+    if isinstance(e, ast.BoolOp):
+        return (any if isinstance(e.op, ast.Or) else all)(holds_for_prefix(v, subject, prefix) for v in e.values)
+    if isinstance(e, ast.Call) and isinstance(e.func, ast.Attribute) and e.func.attr == "startswith" and is_subject(e.func.value) and len(e.args) == 1 and not e.keywords:
+        cs = consts(e.args[0])
+        return cs is not None and any(c and prefix.startswith(c) for c in cs)
+    if isinstance(e, ast.Compare) and len(e.ops) == 1 and isinstance(e.left, ast.Subscript) and is_subject(e.left.value):
+        sl = e.left.slice
+        if isinstance(sl, ast.Constant) and sl.value == 0:
+            n = 1
+        elif isinstance(sl, ast.Slice) and sl.lower is None and sl.step is None and isinstance(sl.upper, ast.Constant) and isinstance(sl.upper.value, int) and 0 < sl.upper.value <= len(prefix):
+            n = sl.upper.value
+        else:
+            return False
+        head = prefix[:n]
+        right = e.comparators[0]
+        if isinstance(e.ops[0], ast.Eq):
+            return isinstance(right, ast.Constant) and right.value == head
+        if isinstance(e.ops[0], ast.In):
+            if isinstance(right, ast.Constant) and isinstance(right.value, str):
+                return n == 1 and head in right.value
+            cs = consts(right)
+            return cs is not None and head in cs
+    return False
